@@ -55,6 +55,7 @@ var wanted = map[string][]string{
 		"clientHelloMsg.marshalForCookie", "generateCookie", "verifyCookie",
 		"halfConn.explicitNonceLen", "Conn.maxPayloadSizeForWrite", "Conn.setWriteSeq",
 		"RetransmitTimer.backoff", "RetransmitTimer.reset",
+		"pHash", "prf12", "masterFromPreMasterSecret", "keysFromMasterSecret",
 	},
 	"tlcp": {
 		"extractPadding", "roundUp", "requiresClientCert", "supportedVersionsFromMax",
@@ -62,6 +63,7 @@ var wanted = map[string][]string{
 		"certificateMsg.unmarshal", "certificateRequestMsg.unmarshal", "serverKeyExchangeMsg.unmarshal",
 		"clientKeyExchangeMsg.unmarshal", "serverHelloDoneMsg.unmarshal",
 		"halfConn.explicitNonceLen", "Conn.maxPayloadSizeForWrite", "halfConn.incSeq",
+		"pHash", "prf12", "masterFromPreMasterSecret", "keysFromMasterSecret",
 	},
 }
 
@@ -72,12 +74,9 @@ var pkgOrder = []string{"tlcp", "dtlcp"}
 // synthetic file type-check without importing crypto packages; the translator recognises the calls
 // by name and gives them their meaning (see `externCall`).
 const externStubs = `
-type goHash interface {
-	Write(p []byte) (int, error)
-	Sum(b []byte) []byte
-}
-var hmac = struct{ New func(h func() goHash, key []byte) goHash }{}
-var sm3 = struct{ New func() goHash }{}
+var hmac = struct{ New func(h func() hash.Hash, key []byte) hash.Hash }{}
+var sm3 = struct{ New func() hash.Hash }{}
+var sha256 = struct{ New func() hash.Hash }{}
 var subtle = struct{ ConstantTimeCompare func(x, y []byte) int }{}
 
 `
@@ -118,6 +117,14 @@ func (t *RetransmitTimer) start() { t.starts++ }
 }
 
 const viewCommon = `
+type cipherSuite struct{ id uint16 }
+
+// every suite the stack negotiates derives keys with the TLS 1.2 PRF over HMAC-SM3; checkViews verifies
+// that each return of the real prfAndHashForVersion has prf12(sm3.New) as its first value
+func prfForVersion(version uint16, suite *cipherSuite) func(result, secret, label, seed []byte) {
+	return func(result, secret, label, seed []byte) { prf12(sm3.New)(result, secret, label, seed) }
+}
+
 type halfConn struct {
 	cipher interface{} // nil, goStream, goAEAD or goCBC (the real dynamic types are library ciphers)
 	mac    goSized     // real type hash.Hash: only Size() is used
@@ -139,6 +146,7 @@ var viewStructs = map[string]map[string]bool{
 	"Config":          {},
 	"halfConn":        {"mac": true},
 	"RetransmitTimer": {"starts": true},
+	"cipherSuite":     {},
 }
 
 // viewOptional: stub fields that exist in only one of the packages
@@ -223,7 +231,8 @@ func synth(d *decls, pkgName string, fns []string) (*token.FileSet, *ast.File, *
 	dropped := map[string]string{}
 	for round := 0; round < 200; round++ {
 		var buf bytes.Buffer
-		fmt.Fprintf(&buf, "package %s\n\nimport \"time\"\n\nvar _ = time.Now\n\n%s\n", pkgName, externStubs+viewStubs[pkgName])
+		fmt.Fprintf(&buf, "package %s\n\nimport \"time\"\nimport \"hash\"\n\nvar _ = time.Now\nvar _ hash.Hash\n\n%s\n", pkgName, externStubs+viewStubs[pkgName])
+		_ = 0
 		for _, g := range genOrder {
 			printer.Fprint(&buf, d.fset, g)
 			buf.WriteString("\n\n")
@@ -360,6 +369,32 @@ func checkViews(d *decls, pkgName string) error {
 	if err != nil {
 		return err
 	}
+	// the stub of prfForVersion: every return of the real prfAndHashForVersion yields prf12(sm3.New), and
+	// prfForVersion returns that first value
+	if fd := d.funcs["prfAndHashForVersion"]; fd != nil {
+		okAll, n := true, 0
+		ast.Inspect(fd.Body, func(nd ast.Node) bool {
+			if rs, ok := nd.(*ast.ReturnStmt); ok {
+				n++
+				var b bytes.Buffer
+				if len(rs.Results) > 0 {
+					printer.Fprint(&b, d.fset, rs.Results[0])
+				}
+				if b.String() != "prf12(sm3.New)" {
+					okAll = false
+				}
+			}
+			return true
+		})
+		var pb bytes.Buffer
+		if pf := d.funcs["prfForVersion"]; pf != nil {
+			printer.Fprint(&pb, d.fset, pf.Body)
+		}
+		flat := strings.Join(strings.Fields(pb.String()), " ")
+		if !okAll || n == 0 || flat != "{ prf, _ := prfAndHashForVersion(version, suite) return prf }" {
+			return fmt.Errorf("view prfForVersion: the real function does not always return prf12(sm3.New) (%q)", flat)
+		}
+	}
 	for _, dc := range fS.Decls {
 		gd, ok := dc.(*ast.GenDecl)
 		if !ok || gd.Tok != token.TYPE {
@@ -453,6 +488,51 @@ type fnMeta struct {
 	ptrRecv  bool
 	mutParam []string // names of slice parameters written through (returned after the receiver)
 	usesExt  bool     // calls a modelled library function: takes `(ext : Go.Extern)` first
+	inner    *ast.FuncLit // body is `return func(params) {…}`: translated uncurried (outer ++ inner parameters)
+}
+
+// body / params of the function as translated (the closure's, for closure-returning functions)
+func (m *fnMeta) bodyOf() *ast.BlockStmt {
+	if m.inner != nil {
+		return m.inner.Body
+	}
+	return m.decl.Body
+}
+func (m *fnMeta) paramLists() []*ast.FieldList {
+	if m.inner != nil {
+		return []*ast.FieldList{m.decl.Type.Params, m.inner.Type.Params}
+	}
+	return []*ast.FieldList{m.decl.Type.Params}
+}
+func (m *fnMeta) resultsOf() *ast.FieldList {
+	if m.inner != nil {
+		return m.inner.Type.Results
+	}
+	return m.decl.Type.Results
+}
+func (m *fnMeta) paramNames() []string {
+	var out []string
+	for _, fl := range m.paramLists() {
+		for _, p := range fl.List {
+			for _, nm := range p.Names {
+				out = append(out, nm.Name)
+			}
+		}
+	}
+	return out
+}
+
+// closureOf: the FuncLit of a body that is exactly `return func(...) {...}`
+func closureOf(fd *ast.FuncDecl) *ast.FuncLit {
+	if fd.Body == nil || len(fd.Body.List) != 1 {
+		return nil
+	}
+	rs, ok := fd.Body.List[0].(*ast.ReturnStmt)
+	if !ok || len(rs.Results) != 1 {
+		return nil
+	}
+	fl, _ := rs.Results[0].(*ast.FuncLit)
+	return fl
 }
 
 var leanKeywords = map[string]bool{"end": true, "at": true, "from": true, "have": true, "show": true, "with": true,
@@ -462,12 +542,27 @@ var leanKeywords = map[string]bool{"end": true, "at": true, "from": true, "have"
 	"Type": true, "Prop": true, "Sort": true, "true": true, "false": true, "some": true, "none": true, "default": true,
 	"bit": false, "mask": false}
 
+// isHashIface: the standard library's hash.Hash (modelled as a keyed-hash object, see externStubs)
+func isHashIface(ty types.Type) bool {
+	n, ok := ty.(*types.Named)
+	return ok && n.Obj().Pkg() != nil && n.Obj().Pkg().Path() == "hash" && n.Obj().Name() == "Hash"
+}
+
+// isHashCtor: func() hash.Hash — a hash algorithm
+func isHashCtor(ty types.Type) bool {
+	sg, ok := ty.Underlying().(*types.Signature)
+	return ok && sg.Params().Len() == 0 && sg.Results().Len() == 1 && isHashIface(sg.Results().At(0).Type())
+}
+
 func (t *tr) leanType(ty types.Type) string {
+	if isHashIface(ty) {
+		return "Go.Hmac"
+	}
+	if isHashCtor(ty) {
+		return "Go.HashAlg"
+	}
 	switch u := ty.(type) {
 	case *types.Named:
-		if u.Obj().Name() == "goHash" && u.Obj().Pkg() == t.pkg {
-			return "Go.Hmac"
-		}
 		if _, ok := u.Underlying().(*types.Struct); ok {
 			if u.Obj().Pkg() != t.pkg {
 				bad("type %s belongs to another package", ty)
@@ -557,6 +652,12 @@ func intKind(ty types.Type) (width int, signed bool, isInt bool) {
 }
 
 func (t *tr) zero(ty types.Type) string {
+	if isHashIface(ty) {
+		return "{}"
+	}
+	if isHashCtor(ty) {
+		return "Go.HashAlg.sm3"
+	}
 	if w, _, ok := intKind(ty); ok {
 		if w == 0 {
 			return "(0 : Int)"
@@ -739,6 +840,13 @@ func (t *tr) expr(e ast.Expr) string {
 		}
 		return t.name(obj)
 	case *ast.SelectorExpr:
+		if src := t.src(x); src == "sm3.New" || src == "sha256.New" {
+			if id, ok := x.X.(*ast.Ident); ok {
+				if v, isVar := t.info.Uses[id].(*types.Var); isVar && v.Parent() == t.pkg.Scope() {
+					return "Go.HashAlg." + id.Name
+				}
+			}
+		}
 		sel := t.info.Selections[x]
 		if sel == nil || sel.Kind() != types.FieldVal {
 			bad("selector %s", t.src(x))
@@ -1139,10 +1247,10 @@ func (t *tr) externCall(c *ast.CallExpr) (string, bool) {
 		if v, isVar := t.info.Uses[id].(*types.Var); isVar && v.Parent() == t.pkg.Scope() {
 			switch id.Name + "." + sel.Sel.Name {
 			case "hmac.New":
-				if len(c.Args) == 2 && t.src(c.Args[0]) == "sm3.New" {
-					return "({ key := " + t.expr(c.Args[1]) + ", input := [] } : Go.Hmac)", true
+				if len(c.Args) == 2 {
+					return "({ alg := " + t.expr(c.Args[0]) + ", key := " + t.expr(c.Args[1]) + ", input := [] } : Go.Hmac)", true
 				}
-				bad("hmac.New with a hash other than sm3.New")
+				bad("hmac.New arity")
 			case "subtle.ConstantTimeCompare":
 				return "(Go.constantTimeCompare " + t.atom(c.Args[0]) + " " + t.atom(c.Args[1]) + ")", true
 			}
@@ -1150,7 +1258,7 @@ func (t *tr) externCall(c *ast.CallExpr) (string, bool) {
 	}
 	// h.Sum(nil) on a modelled hash
 	if s := t.info.Selections[sel]; s != nil && s.Kind() == types.MethodVal {
-		if n, ok := s.Recv().(*types.Named); ok && n.Obj().Name() == "goHash" {
+		if isHashIface(s.Recv()) {
 			switch sel.Sel.Name {
 			case "Sum":
 				if id, ok := c.Args[0].(*ast.Ident); !ok || id.Name != "nil" {
@@ -1158,7 +1266,7 @@ func (t *tr) externCall(c *ast.CallExpr) (string, bool) {
 				}
 				t.meta.usesExt = true
 				h := t.atom(sel.X)
-				return "(ext.hmacSM3 " + h + ".key " + h + ".input)", true
+				return "(ext.hmac " + h + ".alg " + h + ".key " + h + ".input)", true
 			}
 			bad("method %s of a hash in expression position", sel.Sel.Name)
 		}
@@ -1478,6 +1586,39 @@ func (t *tr) copyStmt(o *out, c *ast.CallExpr) {
 	}
 }
 
+// procCall: a call, for its effect, of a translated procedure (no results) that writes through exactly
+// one slice argument: the argument is re-bound to the value the procedure returns
+func (t *tr) procCall(o *out, callee *fnMeta, args []ast.Expr, c *ast.CallExpr) bool {
+	res := callee.resultsOf()
+	if len(callee.mutParam) != 1 || callee.mutRecv || (res != nil && res.NumFields() > 0) {
+		return false
+	}
+	idx := -1
+	for k, nm := range callee.paramNames() {
+		if mangle(nm) == callee.mutParam[0] {
+			idx = k
+		}
+	}
+	if idx < 0 || idx >= len(args) {
+		bad("call statement %s", t.src(c))
+	}
+	sx := callee.leanName
+	if callee.usesExt {
+		sx += " ext"
+		t.meta.usesExt = true
+	}
+	for _, a := range args {
+		sx += " " + t.atom(a)
+	}
+	if callee.panics {
+		sx = t.act(sx)
+	} else {
+		sx = "(" + sx + ")"
+	}
+	t.assign(o, args[idx], sx)
+	return true
+}
+
 func (t *tr) callStmt(o *out, c *ast.CallExpr) {
 	if id, ok := c.Fun.(*ast.Ident); ok && id.Name == "panic" {
 		if _, isB := t.info.Uses[id].(*types.Builtin); isB {
@@ -1492,43 +1633,31 @@ func (t *tr) callStmt(o *out, c *ast.CallExpr) {
 			t.copyStmt(o, c)
 			return
 		}
-		// a translated procedure that writes through exactly one slice argument
-		if callee := t.byObj[t.info.Uses[id]]; callee != nil && len(callee.mutParam) == 1 && !callee.mutRecv &&
-			(callee.decl.Type.Results == nil || callee.decl.Type.Results.NumFields() == 0) {
-			idx := -1
-			k := 0
-			for _, p := range callee.decl.Type.Params.List {
-				for _, nm := range p.Names {
-					if mangle(nm.Name) == callee.mutParam[0] {
-						idx = k
-					}
-					k++
-				}
-			}
-			if idx < 0 || idx >= len(c.Args) {
-				bad("call statement %s", t.src(c))
-			}
-			sx := callee.leanName
-			for _, a := range c.Args {
-				sx += " " + t.atom(a)
-			}
-			if callee.panics {
-				sx = t.act(sx)
-			} else {
-				sx = "(" + sx + ")"
-			}
-			t.assign(o, c.Args[idx], sx)
+		if callee := t.byObj[t.info.Uses[id]]; callee != nil && callee.inner == nil && t.procCall(o, callee, c.Args, c) {
 			return
 		}
 	}
-	// h.Write(x) on a modelled hash: the input grows
-	if f, ok := c.Fun.(*ast.SelectorExpr); ok && f.Sel.Name == "Write" {
-		if s := t.info.Selections[f]; s != nil && s.Kind() == types.MethodVal {
-			if n, ok := s.Recv().(*types.Named); ok && n.Obj().Name() == "goHash" {
-				h := t.expr(f.X)
-				t.assign(o, f.X, "{ "+h+" with input := "+h+".input ++ "+t.atom(c.Args[0])+" }")
-				return
+	// f(outer...)(inner...) where f returns a closure (translated uncurried)
+	if innerCall, ok := c.Fun.(*ast.CallExpr); ok {
+		if id, ok := innerCall.Fun.(*ast.Ident); ok {
+			if callee := t.byObj[t.info.Uses[id]]; callee != nil && callee.inner != nil {
+				args := append(append([]ast.Expr{}, innerCall.Args...), c.Args...)
+				if t.procCall(o, callee, args, c) {
+					return
+				}
 			}
+		}
+	}
+	// h.Write(x) on a modelled hash: the input grows
+	if f, ok := c.Fun.(*ast.SelectorExpr); ok && (f.Sel.Name == "Write" || f.Sel.Name == "Reset") {
+		if s := t.info.Selections[f]; s != nil && s.Kind() == types.MethodVal && isHashIface(s.Recv()) {
+			h := t.expr(f.X)
+			if f.Sel.Name == "Reset" {
+				t.assign(o, f.X, "{ "+h+" with input := [] }")
+			} else {
+				t.assign(o, f.X, "{ "+h+" with input := "+h+".input ++ "+t.atom(c.Args[0])+" }")
+			}
+			return
 		}
 	}
 	// method call for its effect on the receiver
@@ -1978,50 +2107,73 @@ func assignsThroughRecv(fd *ast.FuncDecl) bool {
 	return found
 }
 
-// writtenSliceParams: parameters `p []T` with `p[i] = v`, `p[i] op= v` or `copy(p.., ..)` in the body
-func writtenSliceParams(fd *ast.FuncDecl) []string {
+// writtenSliceParams: parameters `p []T` with `p[i] = v`, `p[i] op= v`, `copy(p.., ..)` in the body, or
+// handed to a translated callee at a position the callee writes through (byName: metas so far)
+func writtenSliceParams(m *fnMeta, byName map[string]*fnMeta) []string {
 	var outp []string
-	for _, p := range fd.Type.Params.List {
-		if _, ok := p.Type.(*ast.ArrayType); !ok {
-			continue
-		}
-		for _, nm := range p.Names {
-			rooted := func(e ast.Expr) bool {
-				for {
-					switch x := e.(type) {
-					case *ast.IndexExpr:
-						e = x.X
-					case *ast.SliceExpr:
-						e = x.X
-					case *ast.Ident:
-						return x.Name == nm.Name
-					default:
-						return false
-					}
-				}
+	body := m.bodyOf()
+	for _, fl := range m.paramLists() {
+		for _, p := range fl.List {
+			if _, ok := p.Type.(*ast.ArrayType); !ok {
+				continue
 			}
-			found := false
-			ast.Inspect(fd.Body, func(n ast.Node) bool {
-				switch s := n.(type) {
-				case *ast.AssignStmt:
-					for _, l := range s.Lhs {
-						if _, isId := l.(*ast.Ident); !isId && rooted(l) {
-							found = true
-						}
-					}
-				case *ast.CallExpr:
-					if id, ok := s.Fun.(*ast.Ident); ok && id.Name == "copy" && len(s.Args) == 2 {
-						if _, isId := s.Args[0].(*ast.Ident); !isId && rooted(s.Args[0]) {
-							found = true
-						} else if isId && rooted(s.Args[0]) {
-							found = true
+			for _, nm := range p.Names {
+				rooted := func(e ast.Expr) bool {
+					for {
+						switch x := e.(type) {
+						case *ast.IndexExpr:
+							e = x.X
+						case *ast.SliceExpr:
+							e = x.X
+						case *ast.Ident:
+							return x.Name == nm.Name
+						default:
+							return false
 						}
 					}
 				}
-				return true
-			})
-			if found {
-				outp = append(outp, mangle(nm.Name))
+				found := false
+				ast.Inspect(body, func(n ast.Node) bool {
+					switch s := n.(type) {
+					case *ast.AssignStmt:
+						for _, l := range s.Lhs {
+							if _, isId := l.(*ast.Ident); !isId && rooted(l) {
+								found = true
+							}
+						}
+					case *ast.CallExpr:
+						if id, ok := s.Fun.(*ast.Ident); ok && id.Name == "copy" && len(s.Args) == 2 && rooted(s.Args[0]) {
+							found = true
+						}
+						// f(args) or f(outer...)(args): a callee that writes through that position
+						var callee *fnMeta
+						var args []ast.Expr
+						if id, ok := s.Fun.(*ast.Ident); ok {
+							callee, args = byName[id.Name], s.Args
+						} else if inner, ok := s.Fun.(*ast.CallExpr); ok {
+							if id, ok := inner.Fun.(*ast.Ident); ok {
+								callee = byName[id.Name]
+								args = append(append([]ast.Expr{}, inner.Args...), s.Args...)
+							}
+						}
+						if callee != nil {
+							names := callee.paramNames()
+							for i, a := range args {
+								if i < len(names) && rooted(a) {
+									for _, mp := range callee.mutParam {
+										if mp == mangle(names[i]) {
+											found = true
+										}
+									}
+								}
+							}
+						}
+					}
+					return true
+				})
+				if found {
+					outp = append(outp, mangle(nm.Name))
+				}
 			}
 		}
 	}
@@ -2051,7 +2203,9 @@ func (t *tr) function(m *fnMeta) (text string, err error) {
 	var muts []string
 	var snaps []string
 	hasGeneralLoop := false
-	ast.Inspect(fd.Body, func(n ast.Node) bool {
+	fbody := m.bodyOf()
+	fresults := m.resultsOf()
+	ast.Inspect(fbody, func(n ast.Node) bool {
 		if f, ok := n.(*ast.ForStmt); ok && !t.countingLoop(f) {
 			hasGeneralLoop = true
 		}
@@ -2065,7 +2219,11 @@ func (t *tr) function(m *fnMeta) (text string, err error) {
 			muts = append(muts, t.name(t.recv))
 		}
 	}
-	for _, p := range fd.Type.Params.List {
+	var allParams []*ast.Field
+	for _, fl := range m.paramLists() {
+		allParams = append(allParams, fl.List...)
+	}
+	for _, p := range allParams {
 		for _, nm := range p.Names {
 			obj := t.info.Defs[nm]
 			params = append(params, fmt.Sprintf("(%s : %s)", t.name(obj), t.leanType(obj.Type())))
@@ -2075,7 +2233,7 @@ func (t *tr) function(m *fnMeta) (text string, err error) {
 					isMutP = true
 				}
 			}
-			if assigned(fd.Body, t.info, obj) || isMutP {
+			if assigned(fbody, t.info, obj) || isMutP {
 				muts = append(muts, t.name(obj))
 			}
 			if _, isSlice := obj.Type().Underlying().(*types.Slice); isSlice && hasGeneralLoop {
@@ -2087,7 +2245,7 @@ func (t *tr) function(m *fnMeta) (text string, err error) {
 	if m.mutRecv {
 		resTypes = append(resTypes, t.leanType(t.recv.Type()))
 	}
-	for _, p := range fd.Type.Params.List {
+	for _, p := range allParams {
 		for _, nm := range p.Names {
 			for _, mp := range m.mutParam {
 				if mp == mangle(nm.Name) {
@@ -2097,8 +2255,8 @@ func (t *tr) function(m *fnMeta) (text string, err error) {
 		}
 	}
 	var resDecl []string
-	if fd.Type.Results != nil {
-		for _, r := range fd.Type.Results.List {
+	if fresults != nil {
+		for _, r := range fresults.List {
 			if len(r.Names) == 0 {
 				resTypes = append(resTypes, t.leanType(t.info.Types[r.Type].Type))
 			}
@@ -2125,14 +2283,14 @@ func (t *tr) function(m *fnMeta) (text string, err error) {
 	for _, d := range resDecl {
 		t.emit(o, "%s", d)
 	}
-	t.stmts(o, fd.Body.List)
+	t.stmts(o, fbody.List)
 	// fall-through return (procedures and named results)
-	if n := len(fd.Body.List); n == 0 || !isReturn(fd.Body.List[n-1]) {
+	if n := len(fbody.List); n == 0 || !isReturn(fbody.List[n-1]) {
 		var vals []string
 		for _, r := range t.results {
 			vals = append(vals, t.name(r))
 		}
-		if fd.Type.Results != nil && fd.Type.Results.NumFields() > 0 && len(t.results) == 0 {
+		if fresults != nil && fresults.NumFields() > 0 && len(t.results) == 0 {
 			bad("function can fall off its end")
 		}
 		t.emit(o, "return %s", t.retExpr(vals))
@@ -2242,7 +2400,7 @@ func translatePackage(repo, name string, w *strings.Builder, untranslated *[]str
 	viewErr := checkViews(d, name)
 	var present []string
 	for _, fn := range wanted[name] {
-		if viewErr != nil && (strings.HasPrefix(fn, "Conn.") || strings.HasPrefix(fn, "halfConn.") || strings.HasPrefix(fn, "RetransmitTimer.")) {
+		if viewErr != nil && (strings.HasPrefix(fn, "Conn.") || strings.HasPrefix(fn, "halfConn.") || strings.HasPrefix(fn, "RetransmitTimer.") || fn == "masterFromPreMasterSecret" || fn == "keysFromMasterSecret") {
 			*untranslated = append(*untranslated, name+"."+fn)
 			fmt.Fprintf(w, "-- %s not translated: %v\n\n", fn, viewErr)
 			continue
@@ -2296,9 +2454,54 @@ func translatePackage(repo, name string, w *strings.Builder, untranslated *[]str
 		m.goName = key
 		m.leanName = key
 		m.mutRecv = assignsThroughRecv(fd)
-		m.mutParam = writtenSliceParams(fd)
+		m.inner = closureOf(fd)
 		t.byObj[m.obj] = m
 		metas = append(metas, m)
+	}
+	// slice parameters written through: fixpoint over the call graph
+	byName := map[string]*fnMeta{}
+	for _, m := range metas {
+		if !m.hasRecv {
+			byName[m.goName] = m
+		}
+	}
+	for round := 0; round < 6; round++ {
+		for _, m := range metas {
+			m.mutParam = writtenSliceParams(m, byName)
+		}
+	}
+	// emit callees before callers
+	{
+		var ordered []*fnMeta
+		state := map[*fnMeta]int{}
+		var visit func(m *fnMeta)
+		visit = func(m *fnMeta) {
+			if state[m] != 0 {
+				return
+			}
+			state[m] = 1
+			ast.Inspect(m.decl.Body, func(n ast.Node) bool {
+				switch e := n.(type) {
+				case *ast.Ident:
+					if c := t.byObj[info.Uses[e]]; c != nil {
+						visit(c)
+					}
+				case *ast.SelectorExpr:
+					if sel := info.Selections[e]; sel != nil {
+						if c := t.byObj[sel.Obj()]; c != nil {
+							visit(c)
+						}
+					}
+				}
+				return true
+			})
+			state[m] = 2
+			ordered = append(ordered, m)
+		}
+		for _, m := range metas {
+			visit(m)
+		}
+		metas = ordered
 	}
 	// structures used by the functions, each after the structures its fields mention
 	var structs []*types.Named
@@ -2380,7 +2583,7 @@ func translatePackage(repo, name string, w *strings.Builder, untranslated *[]str
 		for _, sp := range gd.Specs {
 			vs := sp.(*ast.ValueSpec)
 			for i, nm := range vs.Names {
-				if nm.Name == "_" || i >= len(vs.Values) || nm.Name == "hmac" || nm.Name == "sm3" || nm.Name == "subtle" {
+				if nm.Name == "_" || i >= len(vs.Values) || nm.Name == "hmac" || nm.Name == "sm3" || nm.Name == "sha256" || nm.Name == "subtle" {
 					continue
 				}
 				obj := info.Defs[nm]
